@@ -16,58 +16,10 @@
   Specification (code independent): `comp`, `specCentring` (the SHELXL manual's LATT table), `fullGroup`,
   `ValidSetting`, `Closed`.
 -/
+import ShelxModel.C11Core
 import ShelxModel.Extracted.Latt
 
 namespace Shelx.C11
-
-/-! ### operators -/
-
-structure Mat where
-  a11 : Int
-  a12 : Int
-  a13 : Int
-  a21 : Int
-  a22 : Int
-  a23 : Int
-  a31 : Int
-  a32 : Int
-  a33 : Int
-deriving DecidableEq, Repr
-
-structure Vec where
-  x : Rat
-  y : Rat
-  z : Rat
-deriving DecidableEq, Repr
-
-/-- `x' = m x + t` -/
-structure Op where
-  m : Mat
-  t : Vec
-deriving DecidableEq, Repr
-
-def Mat.one : Mat := ⟨1, 0, 0, 0, 1, 0, 0, 0, 1⟩
-def Mat.neg (a : Mat) : Mat := ⟨-a.a11, -a.a12, -a.a13, -a.a21, -a.a22, -a.a23, -a.a31, -a.a32, -a.a33⟩
-def Mat.mul (a b : Mat) : Mat :=
-  ⟨a.a11 * b.a11 + a.a12 * b.a21 + a.a13 * b.a31, a.a11 * b.a12 + a.a12 * b.a22 + a.a13 * b.a32, a.a11 * b.a13 + a.a12 * b.a23 + a.a13 * b.a33,
-   a.a21 * b.a11 + a.a22 * b.a21 + a.a23 * b.a31, a.a21 * b.a12 + a.a22 * b.a22 + a.a23 * b.a32, a.a21 * b.a13 + a.a22 * b.a23 + a.a23 * b.a33,
-   a.a31 * b.a11 + a.a32 * b.a21 + a.a33 * b.a31, a.a31 * b.a12 + a.a32 * b.a22 + a.a33 * b.a32, a.a31 * b.a13 + a.a32 * b.a23 + a.a33 * b.a33⟩
-def Mat.mulVec (a : Mat) (v : Vec) : Vec :=
-  ⟨a.a11 * v.x + a.a12 * v.y + a.a13 * v.z, a.a21 * v.x + a.a22 * v.y + a.a23 * v.z, a.a31 * v.x + a.a32 * v.y + a.a33 * v.z⟩
-
-def Vec.zero : Vec := ⟨0, 0, 0⟩
-def Vec.add (u v : Vec) : Vec := ⟨u.x + v.x, u.y + v.y, u.z + v.z⟩
-def Vec.neg (u : Vec) : Vec := ⟨-u.x, -u.y, -u.z⟩
-def Vec.ofTriple (p : Rat × Rat × Rat) : Vec := ⟨p.1, p.2.1, p.2.2⟩
-
-/-- fractional part, Python's `v % 1` (result in [0, 1) for either sign) -/
-def fract (x : Rat) : Rat := x - x.floor
-def fractV (v : Vec) : Vec := ⟨fract v.x, fract v.y, fract v.z⟩
-
-/-- the representative of an operator modulo integer translations -/
-def cls (o : Op) : Op := ⟨o.m, fractV o.t⟩
-
-def ident : Op := ⟨Mat.one, Vec.zero⟩
 
 /-! ### Model -/
 
@@ -78,9 +30,6 @@ def lookupLatt (tbl : List (Nat × List (Rat × Rat × Rat))) (n : Nat) : Option
   | (k, vs) :: rest => if k = n then some (vs.map Vec.ofTriple) else lookupLatt rest n
 
 def centring (N : Int) : Option (List Vec) := lookupLatt Shelx.Extracted.lattTable N.natAbs
-
-/-- `LATT.centric`: `self.N > 0` -/
-def centricOf (N : Int) : Bool := decide (N > 0)
 
 /-- `SymmetryElement.__eq__`: same matrix and the same translations after `% 1` -/
 def opEq (a b : Op) : Bool := decide (a.m = b.m) && decide (fractV a.t = fractV b.t)
@@ -125,100 +74,5 @@ def expandWith (C : List Vec) (centric : Bool) (S : List Op) : List Op :=
 /-- `Shelxfile.symmcards` after `LATT N` and the `SYMM` lines `S` -/
 def expand (N : Int) (S : List Op) : Option (List Op) :=
   (centring N).map fun C => expandWith C (centricOf N) S
-
-/-! ### Specification -/
-
-/-- composition: `(comp a b) x = a (b x)` -/
-def comp (a b : Op) : Op := ⟨a.m.mul b.m, (a.m.mulVec b.t).add a.t⟩
-
-def transl (c : Vec) : Op := ⟨Mat.one, c⟩
-def inversion : Op := ⟨Mat.one.neg, Vec.zero⟩
-
-/-- the SHELXL manual: LATT 1=P, 2=I, 3=rhombohedral obverse on hexagonal axes, 4=F, 5=A, 6=B, 7=C -/
-def specCentringNat (n : Nat) : List Vec :=
-  match n with
-  | 2 => [⟨1/2, 1/2, 1/2⟩]
-  | 3 => [⟨2/3, 1/3, 1/3⟩, ⟨1/3, 2/3, 2/3⟩]
-  | 4 => [⟨0, 1/2, 1/2⟩, ⟨1/2, 0, 1/2⟩, ⟨1/2, 1/2, 0⟩]
-  | 5 => [⟨0, 1/2, 1/2⟩]
-  | 6 => [⟨1/2, 0, 1/2⟩]
-  | 7 => [⟨1/2, 1/2, 0⟩]
-  | _ => []
-
-def specCentring (N : Int) : List Vec := specCentringNat N.natAbs
-
-/-- number of lattice points per cell -/
-def mult (N : Int) : Nat := 1 + (specCentring N).length
-
-def signs (centric : Bool) : List Op := if centric then [ident, inversion] else [ident]
-
-/-- `[ c ∘ i ∘ s | s ∈ id :: S, c ∈ 0 :: C, i ∈ [+] or [+, −] ]` -/
-def fullGroupWith (C : List Vec) (centric : Bool) (S : List Op) : List Op :=
-  (ident :: S).flatMap fun s => (Vec.zero :: C).flatMap fun c => (signs centric).map fun i => comp (transl c) (comp i s)
-
-def fullGroup (N : Int) (S : List Op) : List Op := fullGroupWith (specCentring N) (centricOf N) S
-
-/-- a valid LATT number, and the SYMM operators are pairwise distinct (and distinct from the identity) modulo
-    centring, inversion (when N > 0) and integer translations: the spec list has no class twice -/
-def ValidSetting (N : Int) (S : List Op) : Prop :=
-  (1 ≤ N.natAbs ∧ N.natAbs ≤ 7) ∧ ((fullGroup N S).map cls).Nodup
-
-instance (N : Int) (S : List Op) : Decidable (ValidSetting N S) := by unfold ValidSetting; infer_instance
-
-/-- closed under composition modulo ℤ³ -/
-def Closed (G : List Op) : Prop := ∀ a ∈ G, ∀ b ∈ G, cls (comp a b) ∈ G.map cls
-
-instance (G : List Op) : Decidable (Closed G) := by unfold Closed; infer_instance
-
-/-! ### executable checkers (Bool, arranged so that the kernel evaluates every class once; their soundness with
-    respect to `Nodup`, `Closed` is proved in ShelxProps/C11.lean) -/
-
-/-- forces `n` to a literal before it is passed on (kernel evaluation is by name) -/
-def strict {β : Type} (n : Nat) (f : Nat → β) : β :=
-  match n with
-  | 0 => f 0
-  | k + 1 => f (k + 1)
-
-/-- any function would do: a hit is confirmed by structural equality -/
-def hashOp (o : Op) : Nat :=
-  let m := o.m
-  let h := [m.a11, m.a12, m.a13, m.a21, m.a22, m.a23, m.a31, m.a32, m.a33].foldl (fun h a => h * 3 + (a + 1).toNat) 0
-  [o.t.x, o.t.y, o.t.z].foldl (fun h q => (h * 64 + q.num.toNat) * 64 + q.den) h
-
-/-- the classes of `G`, each with its (forced) hash, handed to `k` -/
-def withKeys {β : Type} (G : List Op) (k : List (Nat × Op) → β) : β :=
-  match G with
-  | [] => k []
-  | o :: l => strict (hashOp (cls o)) fun h => withKeys l fun K => k ((h, cls o) :: K)
-
-def memK (K : List (Nat × Op)) (h : Nat) (p : Op) : Bool := K.any fun e => e.1 == h && decide (e.2 = p)
-
-def nodupK : List (Nat × Op) → Bool
-  | [] => true
-  | e :: K => !memK K e.1 e.2 && nodupK K
-
-/-- no class twice -/
-def nodupB (G : List Op) : Bool := withKeys G nodupK
-
-/-- every `g ∘ b` (g ∈ gens, b ∈ G) is in `G` modulo ℤ³ -/
-def leftClosedB (gens G : List Op) : Bool :=
-  withKeys G fun K => gens.all fun g => G.all fun b => strict (hashOp (cls (comp g b))) fun h => memK K h (cls (comp g b))
-
-/-- generators of the group of a setting: the SYMM operators, the centring translations, the inversion if N > 0 -/
-def gensOf (N : Int) (S : List Op) : List Op :=
-  S ++ (specCentring N).map transl ++ (if centricOf N then [inversion] else [])
-
-def validB (N : Int) (S : List Op) : Bool :=
-  decide (1 ≤ N.natAbs) && decide (N.natAbs ≤ 7) && nodupB (fullGroup N S)
-
-/-! ### Tabulated settings (SYMM lines as SHELXL lists them; `order` = point-group order × lattice points,
-    from International Tables A) -/
-
-structure Setting where
-  name : String
-  N : Int
-  S : List Op
-  order : Nat
-deriving Repr
 
 end Shelx.C11
